@@ -1,4 +1,4 @@
-import RsjProofs.EvalScopeHelpers2
+import RsjProofs.EvalScopeStd
 /-!
   C09, run-time half: `step` on expressions, the cases without a recursive scope of their own.
 -/
@@ -6,63 +6,6 @@ open Std.Do
 set_option mvcgen.warning false
 namespace Rsj.Eval.Scope
 open Rsj.Core Rsj.Eval Rsj.Analyze
-
-theorem isObjEnv_of {a b : St} {env : EId} {Γ : AEnv} (hk : EnvOk a.envs env Γ) (hS : S a b)
-    (ho : Γ.isObj = true) : IsObjEnv b.envs env := (hS.env _ _ hk).obj ho
-
-theorem taskOk_mono {a b : St} {t : Task} (h : TaskOk a.envs t) (hS : S a b) : TaskOk b.envs t := by
-  cases t with
-  | eval e env tail d => obtain ⟨Γ, h1, h2⟩ := h; exact ⟨Γ, hS.env _ _ h1, h2⟩
-  | _ => trivial
-
-theorem taskOk_opt {a b : St} {env : EId} {Γ : AEnv} {x : OptExpr} {d : Nat}
-    (hk : EnvOk a.envs env Γ) (hS : S a b) (hw : WSOpt x Γ) :
-    ∀ e, x = .some e → TaskOk b.envs (.eval e env false d) := by
-  intro e he; subst he
-  exact ⟨Γ, hS.env _ _ hk, by simpa [WSOpt] using hw⟩
-
-theorem newThunk_pre {a b : St} {env : EId} {Γ : AEnv} {it : Expr} (hk : EnvOk a.envs env Γ) (hS : S a b)
-    (hw : WS it Γ) : ∃ Γ, EnvOk b.envs env Γ ∧ WS it Γ := ⟨Γ, hS.env _ _ hk, hw⟩
-
-theorem mem_of_split {α} {l pref suff : List α} {x : α} (h : l = pref ++ x :: suff) : x ∈ l := by
-  rw [h]; simp
-
-/-- the environment of one binding set of a comprehension types its body -/
-theorem comp_body_pre {a b : St} {env ienv : EId} {Γ : AEnv} {spec : Specs} {body : Expr}
-    {sets : List (List (String × TId))} {vars : List (String × TId)}
-    (hk : EnvOk a.envs env Γ) (hS : S a b) (hw : WS body (specEnv spec Γ))
-    (hnew : ∀ Γ Γ', EnvOk b.envs env Γ → (Γ'.isObj = true → Γ.isObj = true) →
-      (∀ n, Γ'.has n = true → n ∈ vars.map Prod.fst ∨ Γ.has n = true) → EnvOk b.envs ienv Γ')
-    (hcov : Cov (forVars (specsList spec)) sets) (hmem : vars ∈ sets) :
-    ∃ Γ', EnvOk b.envs ienv Γ' ∧ WS body Γ' := by
-  refine ⟨specEnv spec Γ, hnew Γ _ (hS.env _ _ hk) ?_ ?_, hw⟩
-  · rw [isObj_specEnv]; exact fun h => h
-  · intro n hn
-    rw [has_specEnv] at hn
-    rcases hn with h | h
-    · exact .inl (hcov vars hmem n h)
-    · exact .inr h
-
-syntax "eclose" : tactic
-macro_rules
-  | `(tactic| eclose) => `(tactic| first
-    | sclose
-    | (apply isObjEnv_of <;> first | assumption | schain)
-    | (apply taskOk_opt <;> first | assumption | schain)
-    | (apply taskOk_mono <;> first | assumption | schain)
-    | (simp only [WSOpt] at *; apply taskOk_eval <;> first | assumption | schain)
-    | exact (by assumption : Inv _).wf
-    | exact (by assumption : EnvOk _ _ _).vars _ (by assumption)
-    | exact ⟨_, by assumption, WS_func (by assumption)⟩)
-
-set_option hygiene false in
-/-- one case of `step` on an expression: verification conditions, then the closers -/
-macro "ecase" : tactic => `(tactic|
-  (unfold step
-   mvcgen [g0, g1, g2, g3, g4, g5, g6, g7, g8, h1, h2, h3, h4, h5, h7, h10, hr]
-   all_goals clear g0 g1 g2 g3 g4 g5 g6 g7 g8 h1 h2 h3 h4 h5 h7 h10 hr
-   all_goals vcprep
-   all_goals eclose))
 
 section
 variable (cfg : Cfg) (rec : Task → M Value) (hrec : RecOk rec)
@@ -184,7 +127,7 @@ theorem step_eval_builtin (s : St) (b : Builtin) (args : Exprs) (env : EId) (tai
     ⦃fun st => ⌜st = s⌝⦄ step cfg rec (.eval (.builtin b args) env tail d) ⦃Q s (fun _ _ => True)⦄ := by
   have h1 := newThunk_spec
   have h2 := checkDepth_spec
-  have h3 := builtinCall_spec rec hrec
+  have h3 := builtinCall2_spec (cfg := cfg) rec hrec
   simp only [WS] at hws
   have hmem := WSExprs_mem args Γ hws.2
   qstart
